@@ -47,6 +47,7 @@ typedef IterativeNNQuery<View> Query;
 static std::vector<std::vector<long long> > g_pts;   // integer points
 static std::vector<unsigned int> g_labels;
 static std::size_t g_dim = 0;
+static std::size_t g_batchSize = 0;                  // batch size of the data set (0: 3 if n > 5, else one batch)
 static Data<RealVector> g_data;
 static std::unique_ptr<View> g_view;
 static LinearKernel<RealVector> g_kernel;
@@ -264,7 +265,13 @@ int main(int argc, char** argv){
 		if(t.empty()){ std::cout << "\n"; if(annot.is_open()) annot << "\n"; continue; }
 		std::string const& op = t[0];
 		try{
-		if(op == "data" && t.size() >= 3){
+		if(op == "batch" && t.size() == 2){
+			// batch size of the Data objects created by the following `data` ops (DataView lookups,
+			// numberOfBatches() of the exhaustive search)
+			g_batchSize = std::stoul(t[1]);
+			out << "ok";
+		}
+		else if(op == "data" && t.size() >= 3){
 			g_dim = std::stoul(t[1]); std::size_t n = std::stoul(t[2]);
 			if(t.size() != 3 + g_dim*n || n == 0 || g_dim == 0){ out << "bad-op"; }
 			else{
@@ -277,7 +284,7 @@ int main(int argc, char** argv){
 				}
 				g_labels.assign(n, 0);
 				// several batches so that DataView / batch handling is exercised too
-				g_data = createDataFromRange(vecs, n > 5 ? 3 : 256);
+				g_data = createDataFromRange(vecs, g_batchSize ? g_batchSize : (n > 5 ? 3 : 256));
 				g_view.reset(new View(g_data));
 				out << "ok n=" << n << " d=" << g_dim;
 			}
@@ -377,7 +384,7 @@ int main(int argc, char** argv){
 				for(Tree const* nd: g_pre)
 					ann << " " << vh::exactDouble(nd->squaredDistanceLowerBound(qv)) << " " << (nd->hasChildren() && nd->isLeft(qv) ? 1 : 0);
 			}
-			Data<unsigned int> lab = createDataFromRange(g_labels, n > 5 ? 3 : 256);
+			Data<unsigned int> lab = createDataFromRange(g_labels, g_batchSize ? g_batchSize : (n > 5 ? 3 : 256));
 			LabeledData<RealVector, unsigned int> ds(g_data, lab);
 			TreeNearestNeighbors<RealVector, unsigned int> tnn(ds, g_tree.get());
 			SimpleNearestNeighbors<RealVector, unsigned int> snn(ds, g_metric);
